@@ -516,3 +516,47 @@ def rule_flow(ctx: Ctx) -> List[Ob]:
                           mm.f, s, okA and okT and not c.keywords,
                           f"arguments {args}; targets {tg}", construct=short(s, 100)))
     return obs
+
+
+@rule("MATSOWN", min_instances=6)
+def rule_matsown(ctx: Ctx) -> List[Ob]:
+    """who-may-write the compact representation: the fields of an LBFGSB_MATRICES object (theta, S, Y, L, D, W,
+    invMfactors) are assigned only inside bfgsmats.py (its constructor and update_lbfgs_matrices), where BFGSFORM
+    checks them against the reference formulas; any other module may only replace the whole object by a fresh one"""
+    obs: List[Ob] = []
+    fields = None
+    for q, f in ctx.repo.funcs.items():
+        recv: Set[str] = set()
+        a = f.node.args
+        for p in a.posonlyargs + a.args + a.kwonlyargs:
+            if p.annotation is not None and "LBFGSB_MATRICES" in src(p.annotation):
+                recv.add(p.arg)
+        for s in walk_no_nested(f.node):
+            if isinstance(s, (ast.Assign, ast.AnnAssign)) and isinstance(s.value, ast.Call) and (dotted(s.value.func) or "").split(".")[-1] == "LBFGSB_MATRICES":
+                for t in (s.targets if isinstance(s, ast.Assign) else [s.target]):
+                    if isinstance(t, ast.Name):
+                        recv.add(t.id)
+            if isinstance(s, ast.Assign) and isinstance(s.value, ast.Call) and (dotted(s.value.func) or "").split(".")[-1] == "update_lbfgs_matrices":
+                for t in s.targets:
+                    if isinstance(t, ast.Name):
+                        recv.add(t.id)
+        if not recv:
+            continue
+        for s in walk_no_nested(f.node):
+            tgts = []
+            if isinstance(s, ast.Assign):
+                tgts = s.targets
+            elif isinstance(s, (ast.AugAssign, ast.AnnAssign)):
+                tgts = [s.target]
+            for t in tgts:
+                for tt in (t.elts if isinstance(t, (ast.Tuple, ast.List)) else [t]):
+                    base = tt
+                    while isinstance(base, ast.Subscript):
+                        base = base.value
+                    if isinstance(base, ast.Attribute) and isinstance(base.value, ast.Name) and base.value.id in recv:
+                        ok = f.module.name == "bfgsmats"
+                        obs.append(ob("MATSOWN", "fields of the compact representation are written only by bfgsmats", f, s, ok,
+                                      f"`{short(s, 70)}` in module {f.module.name}" + ("" if ok else
+                                      ": the matrices no longer are the reference function of the stored pairs"),
+                                      False, construct=f"{f.qual}: {short(tt)} <-"))
+    return obs
